@@ -141,7 +141,7 @@ func c09Accounts(p *load.Prog, r *oblig.Run) {
 			continue
 		}
 		k++
-		merged, stored, added, nothingToMerge := 0, 0, 0, false
+		merged, stored, added, nothingToMerge, foundEqual := 0, 0, 0, false, false
 		var mergedVals []ssa.Value
 		for i, b := range path[:len(path)-1] {
 			for _, ins := range b.Instrs {
@@ -184,6 +184,18 @@ func c09Accounts(p *load.Prog, r *oblig.Run) {
 					}
 				}
 			}
+			// an equal child of the result was found: n.Equals(child) taken on its true side
+			if iff, ok := b.Instrs[len(b.Instrs)-1].(*ssa.If); ok && i+1 < len(path) {
+				cond, neg := iff.Cond, false
+				if u, isNot := cond.(*ssa.UnOp); isNot && u.Op == token.NOT {
+					cond, neg = u.X, true
+				}
+				if ec, isCall := cond.(*ssa.Call); isCall && ec.Call.IsInvoke() && ec.Call.Method.Name() == "Equals" && len(ec.Call.Args) == 1 && loop.elementOf(ec.Call.Args[0]) {
+					if (path[i+1] == b.Succs[0]) != neg {
+						foundEqual = true
+					}
+				}
+			}
 			// the right child has no children: len(child.Nodes()) == 0 taken on its true side (or != 0 / > 0 on the false side)
 			if iff, ok := b.Instrs[len(b.Instrs)-1].(*ssa.If); ok && i+1 < len(path) {
 				if bo, ok := iff.Cond.(*ssa.BinOp); ok {
@@ -204,8 +216,8 @@ func c09Accounts(p *load.Prog, r *oblig.Run) {
 			o.OK("merged into an equal child, merged children stored")
 		case merged == 0 && added == 1:
 			o.OK("added as a copy")
-		case merged == 0 && added == 0 && nothingToMerge:
-			o.OK("the right child has no children to merge in")
+		case merged == 0 && added == 0 && nothingToMerge && foundEqual:
+			o.OK("an equal child exists in the result and the right child has no children to merge in")
 		case merged >= 1 && stored < merged:
 			o.Fail("on the path " + pathDesc(p, path) + " the children of a right child are merged with MergeNodeSlices but the merged list is not stored into the matching child of the result: what the right side adds below that child is lost")
 		case merged == 0 && added == 0:
